@@ -37,6 +37,9 @@ def check(ctx):
     # a blocked customer keeps its server across a non-pre-emptive shift change as well: busy servers are only marked off duty
     from . import c12
     c12.off_duty(ctx, P, views, iters)
+    # a blocked customer keeps its server AND its service place: number_in_service (what capacitated slots and JSQ read) follows starts/stops only
+    from . import c09
+    c09.in_service(ctx, P, iters, only={"block_individual", "release", "finish_service"})
     ctx.assume("only in-repo node classes; configuration flags immutable after __init__ (checked)")
     ctx.assume("PS nodes have an integer capacity (no Schedule)")
 
